@@ -34,10 +34,10 @@ functions when only renorm > 0 asks for the dynamic branch): nothing is discarde
 Relational obligation generic == accelerated.  Both trim functions are proved against the SAME functional specification
 (``TrimBase.trim_post``, same labels, same cases for the renorm power); the lemmas ``relational-*`` show that this
 specification determines the kept number up to ties and the renormalisation factor (and, given the kept number, the
-error) uniquely.  On the unchanged tree the generic function does NOT satisfy it (DESIGN finding 6a): label
-``renorm-factor`` fails in every case [mode=M,renorm=R] whose R differs from the power of M, and the abs / rel cases
-with R > 0 end in ``raise@..:no-raise-UnboundLocalError``.  selftest/mutants_c05.py contains a corrected generic
-implementation that discharges every case.
+error) uniquely.  Before the fix of DESIGN finding 6a the generic function did NOT satisfy it (label ``renorm-factor``
+failed in every case [mode=M,renorm=R] whose R differs from the power of M, the abs / rel cases with R > 0 ended in
+``raise@..:no-raise-UnboundLocalError``); with the fix all 24 cases discharge, and selftest/mutants_c05.py reverts the
+fix as an expect-fail mutant.
 
 Engine extensions used (vf/pyvc.py, additive): ``__cmp__`` hook for ordering comparisons of non-scalars (``s > cutoff``
 gives a mask object), a single non-scalar comparison result is returned as is, starred assignment targets
